@@ -489,7 +489,7 @@ impl<'a> Model<'a> {
         if let Some(r) = rec.request {
             // (not while the request is legitimately queued behind a paced retransmission: its
             // packet is not on the wire yet)
-            if matches!(res, OpRes::Handle(_)) && !self.req_matched[r] && self.deferred_by_window(tr).is_none() {
+            if matches!(res, OpRes::Handle(_)) && !self.req_matched[r] && self.deferred_by_window(tr).is_none_or(|seq| seq == usize::MAX) {
                 self.rebalance_class(r);
             }
         }
@@ -508,10 +508,16 @@ impl<'a> Model<'a> {
         // (accepted, never on the wire) only makes the client stricter than this rule.
         if kind == OpKind::Publish && matches!(res, OpRes::Handle(_)) && self.trs[tr].connected.is_some() && !self.trs[tr].hostile {
             let own = rec.request.and_then(|r| self.flights.iter().position(|f| f.req == Some(r)));
-            let occupied = self
+            // (credited to an identical twin: the packet of that class that first went out during
+            // this operation is the one to leave out; none such = this request is still queued)
+            let own = own.or_else(|| {
+                let r = rec.request?;
+                self.flights.iter().position(|f| f.epoch == self.epoch && f.first_op == Some(op) && f.req.is_some_and(|q| self.same_wire_content(q, r)))
+            });
+            let occupied = { self
                 .unresolved()
                 .filter(|(i, f)| matches!(f.kind, FKind::Pub1 | FKind::Pub2) && Some(*i) != own)
-                .count() as u32;
+                .count() as u32 };
             if occupied >= self.trs[tr].rm {
                 self.bad("C06", "C06/accepted-beyond-window", format!("op {op}: publish accepted (handle returned) although {occupied} QoS 1/2 publishes of this session are unresolved and the Receive Maximum of this connection is {}", self.trs[tr].rm));
             }
